@@ -545,6 +545,8 @@ func c10R1(w *World, r *Report) {
 					switch {
 					case !counterMatches(w, counter, l.counter):
 						seen[limit] = "compares " + strings.Join(sortedKeys(w.leaves(counter)), ",") + " instead of the " + l.counter + " counter"
+					case strings.HasPrefix(l.counter, ".") && !strings.HasPrefix(w.path(counter), "p:partitionBuffers[next(range("):
+						seen[limit] = "is tested on " + w.path(counter) + ", not on the buffer of the partition the loop has just filled: a touched partition that reached the limit can go untested"
 					case !nonStrict:
 						seen[limit] = "uses " + c.Op + " (the limit itself must trigger: >=)"
 					default:
